@@ -16,7 +16,7 @@ from . import seams as S
 from .model import Actor, Spec, build, declared_fingerprint, jcopy, program, raw_value
 
 SPEC_OPS = ("new_ocp", "sym", "set_der", "set_next", "add_alg", "subject_to", "clear_constraints", "add_objective",
-            "set_T", "set_t0", "method", "solver", "set_value", "set_initial", "callback")
+            "set_T", "set_t0", "method", "solver", "set_value", "set_value_cat", "set_initial", "callback")
 # ops that (should) invalidate a transcription
 STRUCTURAL = ("sym", "set_der", "set_next", "add_alg", "subject_to", "clear_constraints", "add_objective",
               "set_T", "set_t0", "method", "solver", "callback")
@@ -134,7 +134,7 @@ class World:
                 if k in STRUCTURAL and k != "method":
                     st["pending"].append(k)
                     self.probe("post_transcription_edit")
-                elif k in ("set_value", "set_initial"):
+                elif k in ("set_value", "set_value_cat", "set_initial"):
                     self.probe("post_transcription_update")
                     st["dirty"] = True
             if k == "method":
@@ -188,6 +188,8 @@ class World:
             names.add(step["state"])
         if step["op"] == "set_value":
             names.add(step["p"])
+        if step["op"] == "set_value_cat":
+            names.update(step["ps"])
         if step["op"] == "set_initial":
             if step["x"] not in ("T", "t0"):
                 names.add(step["x"])
@@ -326,11 +328,16 @@ class World:
         f = step.get("fault")
         if f:
             self.fs.next_fault = tuple(f)
+        fired0 = sum(self.fs.fired.values())
         try:
             act.ocp.save(step["path"])
         except Exception as e:
             self.fs.next_fault = None
             self.disk_model.pop(step["path"], None)
+            if sum(self.fs.fired.values()) == fired0:
+                # no disk fault was injected: saving must work in every state of the OCP
+                raise Violation("save-raises", "ocp.save raised %s although the disk is healthy: %s [transcribed=%s, edited since=%s]" % (
+                    type(e).__name__, str(e)[:200], st["ever"], bool(st["pending"])))
             self.fault("save_" + (f[0] if f else "raised"))
             st["transcribed"] = False
             return "raised:" + type(e).__name__
@@ -475,7 +482,7 @@ def fetch_symbols(ocp, spec):
 DEFAULT_WEIGHTS = {
     "set_value": 3, "set_initial": 3, "subject_to": 2, "clear_constraints": 0.7, "add_objective": 1, "method": 2, "solver": 1,
     "set_T": 1, "set_t0": 0.6, "query": 2, "solve": 3, "read_ncs": 0.3, "check": 2, "reject": 0.5, "save": 0, "load": 0,
-    "late_sym": 0.4, "callback": 0.3, "mpc": 1.0,
+    "late_sym": 0.4, "callback": 0.3, "mpc": 1.0, "redeclare": 1.0,
 }
 
 
@@ -537,6 +544,11 @@ class Scheduler:
             if not ps:
                 return None
             p = G.pick(r, ps)
+            scal = [q for q in ps if sp.sym(q).get("grid", "") == "" and sp.sym(q).get("rows", 1) * sp.sym(q).get("cols", 1) == 1 and sp.T != ["par", q]]
+            if len(scal) >= 2 and r.random() < 0.2:
+                # documented form: a simple concatenation of parameters with a stacked value
+                two = r.sample(scal, 2)
+                return {"op": "set_value_cat", "a": a, "ps": two, "v": [G.rnum(r), G.rnum(r)]}
             v = G.positive_value(r) if sp.T == ["par", p] else G.gen_value(r, sp.sym(p), N)
             return {"op": "set_value", "a": a, "p": p, "v": v}
         if k == "set_initial":
@@ -545,6 +557,19 @@ class Scheduler:
                 return None
             t, s = G.pick(r, tg)
             return {"op": "set_initial", "a": a, "x": t, "g": G.gen_guess(r, t, s, N, cfg)}
+        if k == "redeclare":
+            # the model of one state is declared again (same shape), as users do when tuning a model between solves
+            xs = sp.names("state")
+            if not xs:
+                return None
+            x = G.pick(r, xs)
+            rows = sp.sym(x).get("rows", 1)
+            sig = G.atoms(sp, ("state", "control", "algebraic", "parameter", "variable"), allow_t=not sp.nxt)
+            sig = [q for q in sig if not (q[0] in ("s", "i") and sp.T == ["par", q[1]])]
+            e = G.gen_sum(r, sig) if rows == 1 else ["vec"] + [G.gen_sum(r, sig) for _ in range(rows)]
+            if sp.nxt:
+                return self.maybe_remethod([{"op": "set_next", "a": a, "state": x, "expr": e}], a, sp, st)
+            return self.maybe_remethod([{"op": "set_der", "a": a, "state": x, "expr": e, "scale": sp.der.get(x, [None, 1])[1]}], a, sp, st)
         if k == "subject_to":
             c = G.gen_constraints(r, sp, cfg, 1)[0]
             c["a"] = a
